@@ -75,7 +75,11 @@ TrailingUseGetsList(f, a, b) == f = <<>> /\ a # <<>> /\ b # <<>> /\ ((Last(b).k 
 \* finding D2 territory again (directives after a string are emitted twice), decided by PpLex / C06
 HasCond(b) == \E i \in 1..Len(b) : b[i].k = "cond"
 HasStrActual(a) == a # <<>> /\ \E i \in 1..Len(a[1]) : \E j \in 1..Len(a[1][i]) : a[1][i][j].k = "str"
+\* formal (possibly bound to a string) - argument-less usage - formal (possibly bound to a parenthesised group): the raw text
+\* that D2 duplicates behind the string then includes the group, which the token-level deviation does not model
+UseBetweenFormals(b) == \E i \in 2..(Len(b) - 1) : b[i].k = "use" /\ b[i].a = <<>> /\ b[i - 1].k = "id" /\ b[i + 1].k = "id"
 Allowed(a, b) == (NeedsSimple(b) => SimpleActuals(a)) /\ ~TrailingUseGetsList(fl, a, b) /\ ~(HasCond(b) /\ HasStrActual(a))
+                 /\ ~(UseBetweenFormals(b) /\ HasStrActual(a))
 
 MkItem(k, n) == [k |-> k, n |-> n, a |-> <<>>, b |-> <<>>, f |-> 0, ts |-> <<>>, to |-> <<>>, off |-> 0, ln |-> 0, ln2 |-> 0, g |-> FALSE]
 DefItem(n, formals, hasf, toks) == [MkItem("def", n) EXCEPT !.a = formals, !.f = hasf, !.b = <<[src |-> "", toks |-> toks, boff |-> 0]>>]
